@@ -28,15 +28,16 @@ vars == <<cs, now, started, ctxEndAt, returnedAt, kind>>
 
 Poll == 5
 Horizon == 40
+SendOps == {"send", "chsend", "chsendnot", "chsendreq", "chsendresp"}
 WaitKind(c) ==
   CASE c.op \in {"accept"} -> "select"
-    [] c.op \in {"send", "chsend"} /\ c.tr = "inproc" -> IF FixInprocSendCtx THEN "select" ELSE "none"
-    [] c.op = "send" /\ c.tr = "ws" -> IF FixWsSendDeadline THEN "select" ELSE "none"
+    [] c.op \in SendOps /\ c.tr = "inproc" -> IF FixInprocSendCtx THEN "select" ELSE "none"
+    [] c.op \in SendOps /\ c.tr = "ws" -> IF FixWsSendDeadline THEN "select" ELSE "none"
        \* as written: the select wakes up, sets gorilla's deadline (used by the NEXT frame) and then waits
        \* for the writer goroutine, which sits in a write without deadline
     [] c.op \in {"finishs", "fails"} /\ c.tr = "tcp" -> IF FixFinishClose THEN "rcvsel" ELSE "rcvpoll"
        \* repaired: the receiver is awaited no longer than the context allows, then the transport is closed
-    [] c.op \in {"finishs", "fails"} -> "nowait"  \* in-process: the receiver selects on its context
+    [] c.op \in {"finishs", "fails"} -> "nowait"  \* in-process, websocket: the receiver wakes up on its context at once
     [] c.tr \in {"inproc", "ws"} -> "select"
     [] c.op = "pcmd" -> "select"                 \* the request is written, then select {ctx | reply}
     [] c.op = "finishc" -> IF FixFinishClose THEN "select" ELSE "rcvpoll"
